@@ -23,6 +23,7 @@ import sys
 
 MARK_L = "/*VF<*/"
 MARK_R = "/*VF>*/"
+PP = "\x01"   # blanking character for preprocessor lines
 
 
 class OverlayError(Exception):
@@ -56,10 +57,10 @@ def blank(src):
                     k = n if k < 0 else k + 2
                     for t in range(j, k):
                         if out[t] != '\n':
-                            out[t] = ' '
+                            out[t] = PP
                     j = k
                     continue
-                out[j] = ' '
+                out[j] = PP
                 j += 1
             i = j
             continue
@@ -188,7 +189,7 @@ def overlay(src, fn_contracts, loop_contracts, include_line=None):
         name_pos = locs[fn][0]
         # start of the declaration: back up to previous ';' or '}' or start of file
         k = name_pos
-        while k > 0 and b[k - 1] not in ';}':
+        while k > 0 and b[k - 1] not in ';}' + PP:
             k -= 1
         if first_def is None or k < first_def:
             first_def = k
@@ -225,9 +226,9 @@ def function_header(src, fn):
     b = blank(src)
     name_pos, rp, lb, rb = find_function(b, fn)
     k = name_pos
-    while k > 0 and b[k - 1] not in ';}':
+    while k > 0 and b[k - 1] not in ';}' + PP:
         k -= 1
-    hdr = b[k:rp + 1]
+    hdr = b[k:rp + 1].replace(PP, ' ')
     # drop blanked preprocessor residue / whitespace runs
     hdr = re.sub(r'\s+', ' ', hdr).strip()
     hdr = re.sub(r'^\s*static\s+', '', hdr)
